@@ -381,9 +381,9 @@ def rule_cancel(program, ctx, prop=P, rid="C13.cancel"):
             ctx.bad(finding_func(prop, rid, sc, f"start_client's finally lacks `{what}`: the connection's subscriptions/sender outlive it", text=f"finally :: {what}"))
 
 
-def rule_sender(program, ctx):
-    rid = ctx.rule(
-        "C13.sender",
+def rule_sender(program, ctx, prop=P, rid="C13.sender"):
+    ctx.rule(
+        rid,
         "web.send_subscriptions: (sub_id, event) dequeued together; event None -> frame containing the constant EOSE and that sub_id; "
         "otherwise event_as_json(sub_id, event); no path from the dequeue back to the loop head avoids ws_send unless it has "
         "established `event is not None` (a sentinel is never dropped)",
@@ -399,7 +399,7 @@ def rule_sender(program, ctx):
             deq = n
             names = [e.id for e in s.targets[0].elts if isinstance(e, ast.Name)]
     if deq is None or not names or len(names) != 2:
-        ctx.bad(finding_func(P, rid, fn, "sender no longer dequeues `(sub_id, event)` pairs from get_from_storage()", text="def send_subscriptions(...)"))
+        ctx.bad(finding_func(prop, rid, fn, "sender no longer dequeues `(sub_id, event)` pairs from get_from_storage()", text="def send_subscriptions(...)"))
         return
     sid, ev = names
     ctx.ok(rid, cfg.ast_of(deq), f"dequeue: {sid}, {ev} = await get_from_storage()")
@@ -417,17 +417,17 @@ def rule_sender(program, ctx):
     sends = cfg.stmt_nodes(lambda s: any(call_name(c) == "ws_send" for c in own_calls(s)), kinds=("stmt",))
     loop = next((n for n, d in cfg.g.nodes(data=True) if d["kind"] == "loop"), None)
     if not sends or loop is None:
-        ctx.bad(finding_func(P, rid, fn, "sender has no ws_send / loop", text="def send_subscriptions(...)"))
+        ctx.bad(finding_func(prop, rid, fn, "sender has no ws_send / loop", text="def send_subscriptions(...)"))
         return
     passes = test_edges(cfg, not_none)
     path = cfg.find_path(list(cfg.succ(deq, kinds=NORMAL)), [loop, cfg.exit], avoid_nodes=sends, kinds=NORMAL, avoid_edge_kinds=passes)
     if path:
         last = next((cfg.ast_of(n) for n in reversed(path[:-1]) if cfg.ast_of(n) is not None), fn)
-        ctx.bad(finding_at(P, rid, last, "a dequeued item can be dropped without being sent although it may be the EOSE sentinel "
+        ctx.bad(finding_at(prop, rid, last, "a dequeued item can be dropped without being sent although it may be the EOSE sentinel "
                            "(the path has not established `event is not None`)", path=cfg.describe_path(path)))
     else:
         ctx.ok(rid, cfg.ast_of(sends[0]), "every dequeued sentinel reaches ws_send")
-        rule_every_item_sent(program, ctx)
+        rule_every_item_sent(program, ctx, prop=prop, rid=rid)
     # the frame sent is built from the pair dequeued in this iteration
     from ..core import stmt_assigns
     for sn in sends:
@@ -438,7 +438,7 @@ def rule_sender(program, ctx):
             defs = [n for n, d in cfg.g.nodes(data=True) if d["ast"] is not None and d["kind"] == "stmt" and var in stmt_assigns(d["ast"])]
             path = cfg.find_path(list(cfg.succ(deq, kinds=NORMAL)), [sn], avoid_nodes=defs, kinds=NORMAL)
             if path:
-                ctx.bad(finding_at(P, rid, st, f"`{var}` can reach ws_send without having been rebuilt from the pair just dequeued: the frame of an earlier item (another "
+                ctx.bad(finding_at(prop, rid, st, f"`{var}` can reach ws_send without having been rebuilt from the pair just dequeued: the frame of an earlier item (another "
                                    "subscription's id, or an EOSE) is sent again", path=cfg.describe_path(path), text="stale frame"))
             else:
                 ctx.ok(rid, st, f"`{var}` is rebuilt from the dequeued pair on every path to ws_send")
@@ -453,14 +453,14 @@ def rule_sender(program, ctx):
     eose = [s for s in msg_assigns if any(isinstance(k, ast.Constant) and isinstance(k.value, str) and "EOSE" in k.value for k in ast.walk(s.value))]
     evs = [s for s in msg_assigns if any(isinstance(c, ast.Call) and call_name(c) == "event_as_json" for c in ast.walk(s.value))]
     if not eose:
-        ctx.bad(finding_func(P, rid, fn, "no EOSE frame is built for the sentinel", text="def send_subscriptions(...) :: EOSE"))
+        ctx.bad(finding_func(prop, rid, fn, "no EOSE frame is built for the sentinel", text="def send_subscriptions(...) :: EOSE"))
     for s in eose:
         nodes = cfg.nodes_of(s)
         nn = test_edges(cfg, is_none)
         if not any(isinstance(x, ast.Name) and x.id == sid for x in ast.walk(s.value)):
-            ctx.bad(finding_at(P, rid, s, "the EOSE frame does not carry the dequeued subscription id"))
+            ctx.bad(finding_at(prop, rid, s, "the EOSE frame does not carry the dequeued subscription id"))
         elif must_pass(cfg, nn, nodes):
-            ctx.bad(finding_at(P, rid, s, "the EOSE frame is built on a path where the dequeued event is not known to be None"))
+            ctx.bad(finding_at(prop, rid, s, "the EOSE frame is built on a path where the dequeued event is not known to be None"))
         else:
             ctx.ok(rid, s, "None -> EOSE frame with the dequeued sub_id")
     for s in evs:
@@ -468,9 +468,9 @@ def rule_sender(program, ctx):
         if len(c.args) >= 2 and dotted(c.args[0]) == sid and dotted(c.args[1]) == ev:
             ctx.ok(rid, s, "event -> event_as_json(sub_id, event)")
         else:
-            ctx.bad(finding_at(P, rid, s, "EVENT frame is not built from the dequeued (sub_id, event) pair"))
+            ctx.bad(finding_at(prop, rid, s, "EVENT frame is not built from the dequeued (sub_id, event) pair"))
     if not evs:
-        ctx.bad(finding_func(P, rid, fn, "no EVENT frame is built from the dequeued pair", text="def send_subscriptions(...) :: EVENT"))
+        ctx.bad(finding_func(prop, rid, fn, "no EVENT frame is built from the dequeued pair", text="def send_subscriptions(...) :: EVENT"))
 
 
 def rule_notify_atomic(program, ctx, prop=P, rid="C13.atomic"):
@@ -669,8 +669,40 @@ def rule_sentinel_sites(program, ctx, prop=P, rid="C13.sentinel"):
         raise AnalysisError("no sentinel put found")
 
 
+def rule_config_types(program, ctx, prop=P, rid="C13.config"):
+    ctx.rule(
+        rid,
+        "the subscription limit is compared as a number: BaseStorage.subscribe tests `len(subs) == Config.subscription_limit`, so the configuration must hand out the YAML "
+        "document's own (typed) values - ConfigClass.load sets attributes only from the parsed document, never from os.environ / argv strings (\"2\" is truthy and never "
+        "equals an int: the limit silently stops being enforced)",
+        floor=1,
+    )
+    ld = program.func("nostr_relay.config:ConfigClass.load")
+    sets = [c for c in ast.walk(ld) if isinstance(c, ast.Call) and call_name(c) == "setattr"]
+    if not sets:
+        ctx.bad(finding_func(prop, rid, ld, "ConfigClass.load no longer sets the attributes from the document", text="def load(...) :: setattr"))
+    for c in sets:
+        loop = next((a for a in ancestors(c) if isinstance(a, ast.For)), None)
+        src = ast.unparse(loop.iter) if loop is not None else ""
+        if "environ" in src or "argv" in src or "getenv" in ast.unparse(c):
+            ctx.bad(finding_at(prop, rid, c, f"ConfigClass.load sets attributes from `{src[:40]}`: every such value is a str - numeric settings (subscription_limit, max_limit, "
+                               "message_timeout) compare unequal to ints and are no longer enforced"))
+        else:
+            ctx.ok(rid, c, f"attributes set from {src[:40] or 'the document'}")
+    for x in ast.walk(program.module("nostr_relay.config").tree):
+        if isinstance(x, ast.Attribute) and x.attr in ("environ", "getenv") and dotted(x.value) == "os":
+            fn_ = next((a for a in ancestors(x) if isinstance(a, (ast.FunctionDef, ast.AsyncFunctionDef))), None)
+            if fn_ is not None and fn_.name in ("load", "__getattr__", "get"):
+                ctx.bad(finding_at(prop, rid, x, f"ConfigClass.{fn_.name} reads os.{x.attr}: untyped strings become configuration values"))
+
+
 def run(program, ctx):
     rule_notify_atomic(program, ctx)
+    rule_config_types(program, ctx)
+    from . import c19 as _c19
+
+    # a leaked query slot (relay-wide semaphore) parks every later REQ before its EOSE
+    _c19.rule_slots(program, ctx, prop=P, rid="C13.slots")
     from ..lib import rule_awaited
 
     rule_awaited(program, ctx, P, ANCHORS)
